@@ -74,7 +74,9 @@ def explore(ctx, depth):
     for case in cases:
         if case.doc is None or case.errors:
             continue
-        cand = [(ri, ci) for ri, row in enumerate(case.adoc['rows']) if row['kind'] == 'cells' and row['rk'] in ('data', 'interp', 'bar')
+        # also cells of local-comment lines (`!...` in every column): a malformed cell in such a line is a malformed cell, its neighbours stay
+        # comments (added after seeded change C12_r5_1, which decided "comment" by the first cell of the line)
+        cand = [(ri, ci) for ri, row in enumerate(case.adoc['rows']) if row['kind'] == 'cells' and row['rk'] in ('data', 'interp', 'bar', 'fc')
                 for ci, c in enumerate(row['cells']) if case.adoc['headers'][row['live'][ci]] in ('**kern', '**root')]
         if not cand:
             continue
